@@ -39,6 +39,8 @@ def run(ctx, chk):
     chk.rule("C03.R7", "frames of MUL/IMUL/DIV/IDIV and of the adjust instructions", floor=30)
     chk.rule("C03.R8", "CBW/CWD change no flag and extend the sign bit of AL/AX", floor=2)
     chk.rule("C03.R9", "no other abort site in these helpers", floor=10)
+    chk.rule("C03.R10", "adjust instructions treat AL and AH as separate bytes (no carry between them; untouched halves stay copies)", floor=10)
+    adjust_byte_frames(ctx, chk)
 
     tabs = {nt: fn_table(ctx, nt) for nt in ("byte_unary_arithmetic", "word_unary_arithmetic")}
     for nt in tabs:
@@ -271,3 +273,77 @@ def driver_int0_rule(ctx, drv):
         if not any(M.term(drv["blocks"][b])[0] == "return" for b in reach):
             return (False, "the INT(0) arm never reaches a return")
     return (True, f"INT(0) arm (bb{cands[0][1]}): reaches return, Interpreter::parse unreachable")
+
+
+def adjust_byte_frames(ctx, chk):
+    """C03.R10: byte-level structure of the decimal/ASCII adjusts, which the manual defines on AL and AH separately.
+    Decided in the bit domain; for AAA/AAS the run is partitioned on AF so that the adjusting path is taken for every AL
+    (then no bit of AH' may depend on AL and no bit of AL' on AH - a 16-bit addition on AX would carry from AL into AH).
+      DAA/DAS  AH is an exact copy.            AAM  AH', AL' depend on AL only (the old AH is irrelevant).
+      AAD      AH' = 0, AL' depends on AL, AH.  AAA/AAS with AF=0: AH' depends on AH and on AL bits 0..3 only."""
+    from domains import bits_all_deps
+    P = ctx.program
+
+    def ax_deps(bits):
+        return set(b for a, b in bits_all_deps(bits) if a == "ax")
+    for name in ("aaa", "aas", "daa", "das", "aam", "aad"):
+        fn = P.by_name.get(("lib", f"instructions::arithmetic::{name}"))
+        if fn is None:
+            chk.undecided_("C03.R10", name, "helper not found")
+            continue
+        where = fn_where(fn)
+        if name in ("aaa", "aas"):
+            for af in (1, 0):
+                s_ = summarize_fn(ctx, fn, assume={("flag", FBIT["AF"]): af})
+                ax = s_.regs["ax"]
+                if ax.kind != "int":
+                    chk.undecided_("C03.R10", f"{name}[AF={af}]", "AX not an integer value")
+                    continue
+                hi, lo = ax_deps(ax.bits[8:16]), ax_deps(ax.bits[0:8])
+                if af == 1:
+                    if hi & set(range(0, 8)):
+                        chk.violation("C03.R10", name, "ah-depends-on-al", f"{name.upper()} (adjusting path): AH' depends on AL bits {sorted(hi & set(range(8)))}: AL and AH are adjusted as "
+                                      f"separate bytes, a carry out of AL must not reach AH (AL=FAh..FFh would add 2 to AH)", where, "AF=1, AL=FBh")
+                    else:
+                        chk.ok("C03.R10", f"{name}[AF=1]:ah", "AH' depends on AH only")
+                    if lo & set(range(8, 16)):
+                        chk.violation("C03.R10", name, "al-depends-on-ah", f"{name.upper()} (adjusting path): AL' depends on AH bits", where)
+                    else:
+                        chk.ok("C03.R10", f"{name}[AF=1]:al", f"AL' depends on AL bits {sorted(lo)} only")
+                else:
+                    extra = hi & set(range(4, 8))
+                    if extra:
+                        chk.violation("C03.R10", name, "ah-depends-on-al-high-nibble", f"{name.upper()}: AH' depends on AL bits {sorted(extra)}; only the low nibble of AL (and AF) decides the adjust", where)
+                    else:
+                        chk.ok("C03.R10", f"{name}[AF=0]:ah", "AH' depends on AH and the low nibble of AL")
+        else:
+            s_ = summarize_fn(ctx, fn)
+            ax = s_.regs["ax"]
+            if ax.kind != "int":
+                chk.undecided_("C03.R10", name, "AX not an integer value")
+                continue
+            hi, lo = ax_deps(ax.bits[8:16]), ax_deps(ax.bits[0:8])
+            if name in ("daa", "das"):
+                if all(ax.bits[i] == ("c", "ax", i) for i in range(8, 16)):
+                    chk.ok("C03.R10", f"{name}:ah", "AH is an exact copy")
+                else:
+                    chk.violation("C03.R10", name, "ah-modified", f"{name.upper()} changes AH; it adjusts AL only", where)
+                if lo & set(range(8, 16)):
+                    chk.violation("C03.R10", name, "al-depends-on-ah", f"{name.upper()}: AL' depends on AH", where)
+                else:
+                    chk.ok("C03.R10", f"{name}:al", "AL' depends on AL (and AF/CF) only")
+            elif name == "aam":
+                if (hi | lo) & set(range(8, 16)):
+                    chk.violation("C03.R10", name, "depends-on-old-ah", "AAM: the result depends on the previous AH; it is a function of AL alone", where)
+                else:
+                    chk.ok("C03.R10", "aam", "AH', AL' depend on AL only")
+            elif name == "aad":
+                if all(ax.bits[i] == 0 for i in range(8, 16)):
+                    chk.ok("C03.R10", "aad:ah", "AH' = 0")
+                else:
+                    chk.violation("C03.R10", name, "ah-not-cleared", "AAD must clear AH", where)
+                need = set(range(16))
+                if not need <= lo:
+                    chk.violation("C03.R10", name, "al-ignores-input", f"AAD: AL' does not depend on AX bits {sorted(need - lo)}", where)
+                else:
+                    chk.ok("C03.R10", "aad:al", "AL' depends on AH and AL")
